@@ -50,12 +50,17 @@ def qualify_tables(
     dialect = Dialect.get_or_raise(dialect)
     next_alias_name = name_sequence("_")
 
+    # An Identifier given by the caller is normalized and tagged below, so we work on a copy of it
     if db := db or None:
-        db = exp.parse_identifier(db, dialect=dialect)
+        db = exp.parse_identifier(db, dialect=dialect) if isinstance(db, str) else db.copy()
         db.meta["is_table"] = True
         db = normalize_identifiers(db, dialect=dialect)
     if catalog := catalog or None:
-        catalog = exp.parse_identifier(catalog, dialect=dialect)
+        catalog = (
+            exp.parse_identifier(catalog, dialect=dialect)
+            if isinstance(catalog, str)
+            else catalog.copy()
+        )
         catalog.meta["is_table"] = True
         catalog = normalize_identifiers(catalog, dialect=dialect)
 
